@@ -43,6 +43,15 @@ def rand_state(rng, maxh=5, maxw=5):
     return {"rows": rows, "cols": cols}
 
 
+ALL_OPS = [
+    "set_cell", "set_cell", "set_value", "insert_cell", "append_cell", "delete_cell",
+    "set_row", "insert_row", "append_row", "delete_row", "set_row_values", "set_values",
+    "insert_column", "append_column", "set_column", "delete_column", "set_column_cells",
+    "transpose", "rstrip", "optimize_width", "csv",
+]
+OPS = list(ALL_OPS)  # a check may narrow / re-weight this before generate()
+
+
 def rand_op(rng, state, maxn=4):
     h = len(state["rows"])
     w = len(state["cols"])
@@ -51,14 +60,7 @@ def rand_op(rng, state, maxn=4):
     x = rng.choice([rng.randint(0, max(0, rw - 1)), rw, rw + 1, rng.randint(0, w + 2)])
     n = rng.choice([1, 1, 1, 2, 3, maxn])
     c = rng.choice(VALS)
-    kind = rng.choice(
-        [
-            "set_cell", "set_cell", "set_value", "insert_cell", "append_cell", "delete_cell",
-            "set_row", "insert_row", "append_row", "delete_row", "set_row_values", "set_values",
-            "insert_column", "append_column", "set_column", "delete_column", "set_column_cells",
-            "transpose", "rstrip", "optimize_width", "csv",
-        ]
-    )
+    kind = rng.choice(OPS)
     if kind in ("set_cell", "insert_cell"):
         return {"op": kind, "x": x, "y": y, "c": c, "n": n}
     if kind == "set_value":
@@ -239,7 +241,9 @@ def _gen(args):
     return table_history(seed, n) if kind == "table" else row_history(seed, n)
 
 
-def generate(ntraces: int, seed: int, nsteps: int = 12, row_share: float = 0.25, procs=None) -> list:
+def generate(ntraces: int, seed: int, nsteps: int = 12, row_share: float = 0.25, procs=None, ops=None) -> list:
+    global OPS
+    OPS = list(ops) if ops else list(ALL_OPS)
     procs = procs or min(16, os.cpu_count() or 4)
     jobs = []
     for i in range(ntraces):
